@@ -56,7 +56,7 @@ def all_idx(ranges):
 
 def run(ctx):
     ctx.audit()
-    ncases = 150 if ctx.tier == "quick" else 2500
+    ncases = 150 if ctx.tier == "quick" else 6000
     modes = ["shipped", "san"]
     evals = 0; nontriv = set(); dist = {}
     worst_d = Fraction(0); worst_f = Fraction(0)
